@@ -95,7 +95,8 @@ def compare(ctx, case, res, targets):
         for target in targets:
             res.n += 1
             p = cproc.cc(ctx, src, target, "plain", timeout=60)
-            elf, err = refcc.clang_obj(path, os.path.join(d, "t-%s.o" % target), target, std=case.get("std", "gnu11"),
+            std = "gnu2x" if b"[[" in src else case.get("std", "gnu11")
+            elf, err = refcc.clang_obj(path, os.path.join(d, "t-%s.o" % target), target, std=std,
                                        extra=refcc.target_flags(target))
             if elf is None:
                 res.discard.append("clang-rejects")
@@ -117,7 +118,7 @@ def compare(ctx, case, res, targets):
             data = {dd.name: dd for dd in mod.data}
             gelf = None
             if target == "x86_64-sysv":
-                gelf, _ = refcc.gcc_obj(path, os.path.join(d, "g.o"), std=case.get("std", "gnu11"))
+                gelf, _ = refcc.gcc_obj(path, os.path.join(d, "g.o"), std=std)
             for name, desc, cnt in case["names"]:
                 dd = data.get(name)
                 y = elf.symbol(name)
